@@ -13,6 +13,10 @@ checks = [pid]
 for a in sys.argv[3:]:
     if a.startswith("checks="): checks = a[7:].split(",")
 sw = "/tmp/sw-confirm"
+# VERIF_ROOT: run the checks from a snapshot of /verif (git worktree) so that work in /verif can go on meanwhile;
+# the checks build the worker from the scratch worktree through VERIF_REPO, /repo itself is never touched.
+VROOT = os.environ.get("VERIF_ROOT", "/verif")
+ENV["VERIF_REPO"] = sw
 sh(f"git -C /repo worktree remove --force {sw}"); shutil.rmtree(sw, ignore_errors=True)
 rc, out = sh(f"git -C /repo worktree add --detach {sw} HEAD")
 meta = {"property": pid, "mutant": x, "source": "independent sub-agent given only the property text and a scratch worktree", "patch": os.path.basename(patch)}
@@ -41,17 +45,17 @@ try:
     sh(f"git apply -R {patch}", cwd=sw)
     rc2, out2 = sh(run, cwd=sw)
     meta["demo_passes_without_change"] = rc2 == 0
-    # my checks against it (on /repo itself, undone straight afterwards)
-    assert sh("git -C /repo status --porcelain")[1].strip() == "", "repo dirty"
-    sh(f"git -C /repo apply {patch}")
+    for f in demos:
+        os.remove(os.path.join(sw, pkgdirs[re.search(r"^package (\w+)", open(f).read(), re.M).group(1)], os.path.basename(f)))
+    # my checks against it (worker built from the scratch worktree with the change applied)
+    sh(f"git apply {patch}", cwd=sw)
     meta["checks"] = {}
     for c in checks:
-        rc, out = sh(f"./check {c} quick", cwd="/verif")
+        rc, out = sh(f"./check {c} quick", cwd=VROOT)
         v = [l for l in out.splitlines() if l.startswith("VIOLATION")]
-        meta["checks"][c] = {"tier": "quick", "exit": rc, "violation_lines": len(v), "first": next((l.strip() for l in out.splitlines() if l.startswith("  ")), "")[:300]}
-    sh("git -C /repo checkout -- .")
+        keys = sorted(set(re.findall(r'"key": "([^"]+)"', " ".join(open(l.split("replay=")[1]).read() for l in v if os.path.exists(l.split("replay=")[1])))))
+        meta["checks"][c] = {"tier": "quick", "exit": rc, "violation_lines": len(v), "keys": keys[:6], "first": next((l.strip() for l in out.splitlines() if l.startswith("  ")), "")[:300]}
 finally:
-    sh("git -C /repo checkout -- .")
     sh(f"git -C /repo worktree remove --force {sw}"); shutil.rmtree(sw, ignore_errors=True)
     dst = f"/verif/seeded/{pid}-{x}"
     os.makedirs(dst, exist_ok=True)
